@@ -240,7 +240,7 @@ mod proofs {
             #[kani::proof]
             #[kani::stub(robust::orient2d, orient2d_unreachable)]
             #[kani::stub(std::collections::BinaryHeap::push, heap_push_recorder)]
-            #[kani::unwind(7)]
+            #[kani::unwind(10)]
             fn $name() {
                 fill_queue_contract_body::<$f, _>(&mut KaniSrc, $shape);
             }
